@@ -1,6 +1,6 @@
 """Regenerate coq/manager/Gen/*.v from /repo (write-if-changed)."""
 from .framework import COQ, write_if_changed
-from .translate import manager_tr
+from .translate import manager_tr, client_connect
 
 
 def regen():
@@ -11,4 +11,8 @@ def regen():
         write_if_changed(d / "MgrDefs.v", manager_tr.render())
     except Exception as e:
         errs.append(("MgrDefs.v", f"{type(e).__name__}: {e}"))
+    try:
+        write_if_changed(d / "ClientConnect.v", client_connect.render())
+    except Exception as e:
+        errs.append(("ClientConnect.v", f"{type(e).__name__}: {e}"))
     return errs
